@@ -274,7 +274,13 @@ func (r *Runner) runOne(idx int, cs CaseSpec, fn func(c *Case)) {
 			defer func() {
 				if p := recover(); p != nil {
 					st := string(debug.Stack())
-					c.Violate("panic:"+panicSite(st), "panic in case goroutine: %v\n%s", p, st)
+					if site := panicSite(st); site == "harness" && osSetupFailure(fmt.Sprint(p)) {
+						// the harness could not get an operating-system resource it needs for its own set-up
+						// (ports exhausted by TIME_WAIT sockets, descriptors) — nothing about the library
+						c.Inconclusive("harness set-up failed: %v", p)
+					} else {
+						c.Violate("panic:"+site, "panic in case goroutine: %v\n%s", p, st)
+					}
 				}
 				for i := len(c.cleanups) - 1; i >= 0; i-- {
 					// a cleanup (typically Socket.Close) on a wedged object must not hang the child:
@@ -324,6 +330,15 @@ func (r *Runner) runOne(idx int, cs CaseSpec, fn func(c *Case)) {
 }
 
 // panicSite extracts the innermost library frame of a stack for a stable signature.
+func osSetupFailure(msg string) bool {
+	for _, w := range []string{"address already in use", "cannot assign requested address", "too many open files", "no buffer space available"} {
+		if strings.Contains(msg, w) {
+			return true
+		}
+	}
+	return false
+}
+
 func panicSite(stack string) string {
 	lines := strings.Split(stack, "\n")
 	seenPanic := false
